@@ -62,14 +62,14 @@ var (
 	memberCacheMu sync.Mutex
 )
 
-func mkmember(s slot, gen int) quicmemberlist.Member {
-	name := fmt.Sprintf("%s#%d", s.id, gen%3)
+func mkmember(s slot, n, gen int) quicmemberlist.Member {
+	name := fmt.Sprintf("%s@node%d#%d", s.id, n, gen%3)
 	memberCacheMu.Lock()
 	defer memberCacheMu.Unlock()
 	if m, ok := memberCache[name]; ok {
 		return m
 	}
-	m, err := quicmemberlist.NewMember(name, s.udp, node(s.node).addr, node(s.node).pub, "", true)
+	m, err := quicmemberlist.NewMember(name, s.udp, node(n).addr, node(n).pub, "", true)
 	if err != nil {
 		panic(err)
 	}
@@ -83,22 +83,26 @@ func mkmember(s slot, gen int) quicmemberlist.Member {
 type model struct {
 	slots   []slot
 	present []bool
-	gens    []map[string]bool // member names set since the last leave
+	gens    []map[string]bool // member names set since the last leave / node change
+	cur     []int             // node the address joined under last (home node before any join)
+	prev    []int             // node it was under before the last node change
 	nnodes  int
 }
 
 func newModel(slots []slot, nnodes int) *model {
 	m := &model{slots: slots, present: make([]bool, len(slots)), gens: make([]map[string]bool, len(slots)), nnodes: nnodes}
+	m.cur, m.prev = make([]int, len(slots)), make([]int, len(slots))
 	for i := range m.gens {
 		m.gens[i] = map[string]bool{}
+		m.cur[i], m.prev[i] = slots[i].node, slots[i].node
 	}
 	return m
 }
 
 func (m *model) nodeLen(n int) int {
 	c := 0
-	for i, s := range m.slots {
-		if s.node == n && m.present[i] {
+	for i := range m.slots {
+		if m.cur[i] == n && m.present[i] {
 			c++
 		}
 	}
@@ -116,10 +120,13 @@ func (m *model) total() int {
 }
 
 type op struct {
-	Kind string // join | rejoin | leave | leave-absent
+	Kind string // join | rejoin | join-other-node | rejoin-other-node | leave | leave-absent
 	Slot int
 	Gen  int
+	Node int // node the address joins under (joins); node it is under (leaves, informational)
 }
+
+func (o op) isJoin() bool { return o.Kind != "leave" && o.Kind != "leave-absent" }
 
 // viol reports a violation once per signature; the (expensive) witness is
 // only built for the first instance, repeats are counted.
@@ -165,7 +172,7 @@ func sweep(r *vlib.Run, c counts, p *quicmemberlist.VerifMembersPool, m *model, 
 		case found != m.present[i]:
 			viol(r, c, fmt.Sprintf("%sGet:found=%v:present=%v", prefix, found, m.present[i]), fmt.Sprintf("Get(%s) found=%v but the address is present=%v", s.id, found, m.present[i]), hist)
 		case found:
-			if mem == nil || !m.gens[i][mem.Name()] || !mem.Address().Equal(node(s.node).addr) {
+			if mem == nil || !m.gens[i][mem.Name()] || !mem.Address().Equal(node(m.cur[i]).addr) {
 				viol(r, c, prefix+"Get:wrong-member", fmt.Sprintf("Get(%s) returned a member that was not joined at this address since its last leave: %v", s.id, mem), hist)
 			}
 		}
@@ -218,26 +225,35 @@ func sweep(r *vlib.Run, c counts, p *quicmemberlist.VerifMembersPool, m *model, 
 		}
 	}
 	for i, s := range m.slots {
-		c["obs_MembersLenOthers"]++
-		wantLen := m.nodeLen(s.node)
-		wantOthers := wantLen
-		if m.present[i] {
-			wantOthers--
-		}
-		gl, go_, gf := p.MembersLenOthers(node(s.node).addr, s.udp)
-		switch {
-		case gl != wantLen:
-			*listsOK = false
-			viol(r, c, fmt.Sprintf("%sMembersLenOthers:len:%s:by=%s", prefix, dir(gl, wantLen), by), fmt.Sprintf("MembersLenOthers(node%d,%s) len=%d, present addresses of the node=%d", s.node, s.id, gl, wantLen), hist)
-			return
-		case gf != m.present[i]:
-			*listsOK = false
-			viol(r, c, fmt.Sprintf("%sMembersLenOthers:found=%v:present=%v:by=%s", prefix, gf, m.present[i], by), fmt.Sprintf("MembersLenOthers(node%d,%s) found=%v, present=%v", s.node, s.id, gf, m.present[i]), hist)
-			return
-		case go_ != wantOthers:
-			*listsOK = false
-			viol(r, c, fmt.Sprintf("%sMembersLenOthers:others:%s:by=%s", prefix, dir(go_, wantOthers), by), fmt.Sprintf("MembersLenOthers(node%d,%s) others=%d, want %d (the address is listed %d time(s))", s.node, s.id, go_, wantOthers, gl-go_), hist)
-			return
+		// probed under the node it is (was last) under, its home node and the node it moved away from
+		probed := map[int]bool{}
+		for _, n := range []int{m.cur[i], s.node, m.prev[i]} {
+			if probed[n] || n >= m.nnodes {
+				continue
+			}
+			probed[n] = true
+			c["obs_MembersLenOthers"]++
+			wantLen := m.nodeLen(n)
+			wantFound := m.present[i] && m.cur[i] == n
+			wantOthers := wantLen
+			if wantFound {
+				wantOthers--
+			}
+			gl, go_, gf := p.MembersLenOthers(node(n).addr, s.udp)
+			switch {
+			case gl != wantLen:
+				*listsOK = false
+				viol(r, c, fmt.Sprintf("%sMembersLenOthers:len:%s:by=%s", prefix, dir(gl, wantLen), by), fmt.Sprintf("MembersLenOthers(node%d,%s) len=%d, present addresses of the node=%d", n, s.id, gl, wantLen), hist)
+				return
+			case gf != wantFound:
+				*listsOK = false
+				viol(r, c, fmt.Sprintf("%sMembersLenOthers:found=%v:present-under-node=%v:by=%s", prefix, gf, wantFound, by), fmt.Sprintf("MembersLenOthers(node%d,%s) found=%v, the address is present under this node=%v", n, s.id, gf, wantFound), hist)
+				return
+			case go_ != wantOthers:
+				*listsOK = false
+				viol(r, c, fmt.Sprintf("%sMembersLenOthers:others:%s:by=%s", prefix, dir(go_, wantOthers), by), fmt.Sprintf("MembersLenOthers(node%d,%s) others=%d, want %d (the address is listed %d time(s))", n, s.id, go_, wantOthers, gl-go_), hist)
+				return
+			}
 		}
 	}
 	// a node / address never joined
@@ -250,11 +266,15 @@ func sweep(r *vlib.Run, c counts, p *quicmemberlist.VerifMembersPool, m *model, 
 // returned value.
 func apply(r *vlib.Run, c counts, p *quicmemberlist.VerifMembersPool, m *model, o op, hist func() any, prefix string) {
 	s := m.slots[o.Slot]
-	switch o.Kind {
-	case "join", "rejoin":
-		mem := mkmember(s, o.Gen)
+	switch {
+	case o.isJoin():
+		mem := mkmember(s, o.Node, o.Gen)
 		was := m.present[o.Slot]
 		m.present[o.Slot] = true
+		if m.cur[o.Slot] != o.Node {
+			m.prev[o.Slot], m.cur[o.Slot] = m.cur[o.Slot], o.Node
+			m.gens[o.Slot] = map[string]bool{} // last join wins: members of the old node are gone
+		}
 		m.gens[o.Slot][mem.Name()] = true
 		c["op_"+o.Kind]++
 		added := p.Set(mem)
@@ -276,27 +296,37 @@ func apply(r *vlib.Run, c counts, p *quicmemberlist.VerifMembersPool, m *model, 
 	}
 }
 
-func genOps(rngIntn func(int) int, slots []slot, idx []int, present map[int]bool, n int, gen *int) []op {
+func genOps(rngIntn func(int) int, slots []slot, idx []int, present map[int]bool, cur map[int]int, nn, n int, gen *int) []op {
 	var ops []op
 	for len(ops) < n {
 		si := idx[rngIntn(len(idx))]
+		if _, ok := cur[si]; !ok {
+			cur[si] = slots[si].node
+		}
+		other := (cur[si] + 1 + rngIntn(nn-1)) % nn
 		var k string
+		nd := cur[si]
+		x := rngIntn(20)
 		switch {
-		case present[si] && rngIntn(2) == 0:
+		case present[si] && x < 9:
 			k = "leave"
-		case present[si]:
+		case present[si] && x < 17:
 			k = "rejoin"
-		case rngIntn(5) == 0:
+		case present[si]:
+			k, nd = "rejoin-other-node", other // same address joins under another node, no leave in between
+		case x < 3:
 			k = "leave-absent"
-		default:
+		case x < 17:
 			k = "join"
+		default:
+			k, nd = "join-other-node", other // after a leave (or first join) under another node
 		}
 		*gen++
-		ops = append(ops, op{Kind: k, Slot: si, Gen: *gen})
-		switch k {
-		case "join", "rejoin":
-			present[si] = true
-		default:
+		o := op{Kind: k, Slot: si, Gen: *gen, Node: nd}
+		ops = append(ops, o)
+		if o.isJoin() {
+			present[si], cur[si] = true, nd
+		} else {
 			present[si] = false
 		}
 	}
@@ -306,18 +336,22 @@ func genOps(rngIntn func(int) int, slots []slot, idx []int, present map[int]bool
 func fingerprint(slots []slot, ops []op) (fp string, nontrivial bool) {
 	h := fnv.New64a()
 	present := map[int]bool{}
+	cur := map[int]int{}
+	for j := range slots {
+		cur[j] = slots[j].node
+	}
 	var rejoin, leaveWithSibling bool
 	for _, o := range ops {
-		fmt.Fprintf(h, "%s/%d;", o.Kind, o.Slot)
-		switch o.Kind {
-		case "rejoin":
-			rejoin = true
-			present[o.Slot] = true
-		case "join":
-			present[o.Slot] = true
-		case "leave":
+		fmt.Fprintf(h, "%s/%d/%d;", o.Kind, o.Slot, o.Node)
+		switch {
+		case o.isJoin():
+			if present[o.Slot] {
+				rejoin = true
+			}
+			present[o.Slot], cur[o.Slot] = true, o.Node
+		case o.Kind == "leave":
 			for j := range slots {
-				if j != o.Slot && slots[j].node == slots[o.Slot].node && present[j] {
+				if j != o.Slot && cur[j] == cur[o.Slot] && present[j] {
 					leaveWithSibling = true
 				}
 			}
@@ -335,7 +369,7 @@ func histOf(slots []slot, ops []op, upto int) func() any {
 		}
 		var l []string
 		for i := lo; i <= upto && i < len(ops); i++ {
-			l = append(l, fmt.Sprintf("%d:%s(node%d,%s)", i, ops[i].Kind, slots[ops[i].Slot].node, slots[ops[i].Slot].id))
+			l = append(l, fmt.Sprintf("%d:%s(node%d,%s)", i, ops[i].Kind, ops[i].Node, slots[ops[i].Slot].id))
 		}
 		return map[string]any{"slots": len(slots), "step": upto, "ops_tail": l}
 	}
@@ -344,8 +378,8 @@ func histOf(slots []slot, ops []op, upto int) func() any {
 func TestC37(t *testing.T) {
 	r := vlib.Start(t, "C37", vlib.LevelExploration)
 	defer r.Finish()
-	r.SetRule("case = one history of join / re-join / leave / leave-of-absent operations on a fresh membersPool over 2-5 nodes x 1-4 udp addresses (members built by the real NewMember), every observable (Exists, Get, Len, Traverse, MembersLen, MembersLenOthers for every node and address) compared with the model after every operation; then histories with 1 writer + 3 concurrent readers (4 goroutines), readers judging untouched addresses and count bounds, full comparison at quiescence; distinct = hash of the (kind, address) sequence; non-trivial = contains a re-join and a leave while a sibling address of the same node is present")
-	r.Assume("a re-join is the same node joining again from the same address (a new Member value); an address never changes its node")
+	r.SetRule("case = one history of join / re-join / join-or-re-join-under-another-node / leave / leave-of-absent operations on a fresh membersPool over 2-5 nodes x 1-4 udp addresses (members built by the real NewMember), every observable (Exists, Get, Len, Traverse, MembersLen, MembersLenOthers for every node and address) compared with the model after every operation; then histories with 1 writer + 3 concurrent readers (4 goroutines), readers judging untouched addresses and count bounds, full comparison at quiescence; distinct = hash of the (kind, address) sequence; non-trivial = contains a re-join and a leave while a sibling address of the same node is present")
+	r.Assume("a re-join is a Set for an address that is present (a new Member value), under the same node or under another node (last join wins: the address then belongs to the new node only)")
 	r.Assume("Get may return any Member value joined at that address since its last leave")
 	r.Assume("concurrent phase: one writer goroutine (the real callers whenJoined/whenLeft serialise Set/Remove under Memberlist.joinedLock) and 3 reader goroutines; readers judge exactly only addresses the writer does not touch in that phase and bounds for the counts; everything is judged exactly at quiescence")
 
@@ -353,9 +387,13 @@ func TestC37(t *testing.T) {
 	{
 		slots := []slot{mkslot(0, 0), mkslot(0, 1), mkslot(1, 0)}
 		// lookup + re-join
-		runSequential(r, slots, 2, []op{{"join", 0, 1}, {"join", 1, 2}, {"join", 2, 3}, {"rejoin", 0, 4}, {"rejoin", 0, 5}, {"leave", 0, 6}}, true)
+		runSequential(r, slots, 2, []op{{"join", 0, 1, 0}, {"join", 1, 2, 0}, {"join", 2, 3, 1}, {"rejoin", 0, 4, 0}, {"rejoin", 0, 5, 0}, {"leave", 0, 6, 0}}, true)
 		// leave while a sibling address of the same node stays
-		runSequential(r, slots, 2, []op{{"join", 0, 1}, {"join", 1, 2}, {"join", 2, 3}, {"leave", 1, 4}, {"leave-absent", 1, 5}, {"leave", 0, 6}, {"join", 1, 7}}, true)
+		runSequential(r, slots, 2, []op{{"join", 0, 1, 0}, {"join", 1, 2, 0}, {"join", 2, 3, 1}, {"leave", 1, 4, 0}, {"leave-absent", 1, 5, 0}, {"leave", 0, 6, 0}, {"join", 1, 7, 0}}, true)
+		// the same address joins under another node without leaving, leaves, joins under the first node again
+		runSequential(r, slots, 2, []op{{"join", 0, 1, 0}, {"join", 1, 2, 0}, {"rejoin-other-node", 0, 3, 1}, {"leave", 0, 4, 1}, {"join-other-node", 0, 5, 0}, {"leave", 1, 6, 0}}, true)
+		// ... and with a leave in between
+		runSequential(r, slots, 2, []op{{"join", 0, 1, 0}, {"join", 1, 2, 0}, {"leave", 0, 3, 0}, {"join-other-node", 0, 4, 1}, {"rejoin-other-node", 0, 5, 0}, {"leave", 0, 6, 0}}, true)
 	}
 
 	nseq := r.N(300, 6000)
@@ -374,7 +412,7 @@ func TestC37(t *testing.T) {
 			idx[k] = k
 		}
 		gen := 0
-		ops := genOps(rng.Intn, slots, idx, map[int]bool{}, 50+rng.Intn(r.N(151, 251)), &gen)
+		ops := genOps(rng.Intn, slots, idx, map[int]bool{}, map[int]int{}, nn, 50+rng.Intn(r.N(151, 251)), &gen)
 		runSequential(r, slots, nn, ops, i < 2)
 	})
 
@@ -402,7 +440,7 @@ func runSequential(r *vlib.Run, slots []slot, nn int, ops []op, sample bool) {
 				l = append(l, "...")
 				break
 			}
-			l = append(l, fmt.Sprintf("%s(node%d,%s)", o.Kind, slots[o.Slot].node, slots[o.Slot].id))
+			l = append(l, fmt.Sprintf("%s(node%d,%s)", o.Kind, o.Node, slots[o.Slot].id))
 		}
 		r.Sample(map[string]any{"phase": "sequential", "nodes": nn, "addresses": len(slots), "ops": len(ops), "head": l})
 	}
@@ -415,7 +453,7 @@ func runSequential(r *vlib.Run, slots []slot, nn int, ops []op, sample bool) {
 		h := histOf(slots, ops, k)
 		by := o.Kind
 		if o.Kind == "leave" {
-			if m.nodeLen(slots[o.Slot].node) > 1 {
+			if m.nodeLen(m.cur[o.Slot]) > 1 {
 				by = "leave-with-sibling-present"
 			} else {
 				by = "leave-last-of-node"
@@ -465,8 +503,9 @@ func runConcurrent(r *vlib.Run, i int) {
 	}
 	gen := 0
 	present := map[int]bool{}
-	prefix := genOps(rng.Intn, slots, all, present, 10+rng.Intn(30), &gen)
-	wops := genOps(rng.Intn, slots, moving, present, 20+rng.Intn(60), &gen)
+	cur := map[int]int{}
+	prefix := genOps(rng.Intn, slots, all, present, cur, nn, 10+rng.Intn(30), &gen)
+	wops := genOps(rng.Intn, slots, moving, present, cur, nn, 20+rng.Intn(60), &gen)
 
 	fp, nt := fingerprint(slots, append(append([]op{}, prefix...), wops...))
 	if nt {
@@ -503,16 +542,15 @@ func runConcurrent(r *vlib.Run, i int) {
 		isStable[k] = true
 	}
 	stablePresentOfNode := make([]int, nn)
-	movingOfNode := make([]int, nn)
+	stableNode := append([]int{}, m.cur...) // node of every address before the concurrent phase (stable ones keep it)
 	stablePresent := 0
 	for k, s := range slots {
 		switch {
 		case isStable[k] && m.present[k]:
-			stablePresentOfNode[s.node]++
+			stablePresentOfNode[stableNode[k]]++
 			stablePresent++
-		case !isStable[k]:
-			movingOfNode[s.node]++
 		}
+		_ = s
 	}
 	stableIsPresent := make([]bool, len(slots))
 	copy(stableIsPresent, m.present)
@@ -536,7 +574,7 @@ func runConcurrent(r *vlib.Run, i int) {
 		<-start
 		for k, o := range wops {
 			h := func() any {
-				return map[string]any{"phase": "concurrent-writer", "history": i, "step": k, "op": fmt.Sprintf("%s(node%d,%s)", o.Kind, slots[o.Slot].node, slots[o.Slot].id)}
+				return map[string]any{"phase": "concurrent-writer", "history": i, "step": k, "op": fmt.Sprintf("%s(node%d,%s)", o.Kind, o.Node, slots[o.Slot].id)}
 			}
 			mark('w')
 			r.Guard("concurrent:"+o.Kind, o, func() {
@@ -566,9 +604,10 @@ func runConcurrent(r *vlib.Run, i int) {
 			for it := 0; it < 40; it++ {
 				k := stable[rr.Intn(len(stable))]
 				s := slots[k]
+				sn := stableNode[k]
 				want := stableIsPresent[k]
 				h := func() any {
-					return map[string]any{"phase": "concurrent-reader", "history": i, "reader": g, "iteration": it, "address": s.id, "node": s.node, "stable_present": want}
+					return map[string]any{"phase": "concurrent-reader", "history": i, "reader": g, "iteration": it, "address": s.id, "node": sn, "stable_present": want}
 				}
 				mark(byte('0' + g))
 				r.Guard("concurrent:reader", it, func() {
@@ -581,17 +620,17 @@ func runConcurrent(r *vlib.Run, i int) {
 						viol(r, c, fmt.Sprintf("concurrent:reader:Get:found=%v:present=%v", found, want), fmt.Sprintf("Get(%s) found=%v while the writer never touches this address (present=%v)", s.id, found, want), h)
 					}
 					c["obs_MembersLenOthers"]++
-					gl, _, gf := p.MembersLenOthers(node(s.node).addr, s.udp)
-					lo, hi := stablePresentOfNode[s.node], stablePresentOfNode[s.node]+movingOfNode[s.node]
+					gl, _, gf := p.MembersLenOthers(node(sn).addr, s.udp)
+					lo, hi := stablePresentOfNode[sn], stablePresentOfNode[sn]+len(moving) // any moved address can be under any node
 					if gf != want {
-						viol(r, c, fmt.Sprintf("concurrent:reader:MembersLenOthers:found=%v:present=%v", gf, want), fmt.Sprintf("MembersLenOthers(node%d,%s) found=%v while the writer only joins/leaves other addresses (present=%v)", s.node, s.id, gf, want), h)
+						viol(r, c, fmt.Sprintf("concurrent:reader:MembersLenOthers:found=%v:present=%v", gf, want), fmt.Sprintf("MembersLenOthers(node%d,%s) found=%v while the writer only joins/leaves other addresses (present=%v)", sn, s.id, gf, want), h)
 					}
 					if gl < lo || gl > hi {
-						viol(r, c, "concurrent:reader:MembersLenOthers:len-out-of-bounds:"+dir(gl, lo), fmt.Sprintf("MembersLenOthers(node%d) len=%d outside [%d,%d]", s.node, gl, lo, hi), h)
+						viol(r, c, "concurrent:reader:MembersLenOthers:len-out-of-bounds:"+dir(gl, lo), fmt.Sprintf("MembersLenOthers(node%d) len=%d outside [%d,%d]", sn, gl, lo, hi), h)
 					}
 					c["obs_MembersLen"]++
-					if got := p.MembersLen(node(s.node).addr); got < lo || got > hi {
-						viol(r, c, "concurrent:reader:MembersLen:out-of-bounds:"+dir(got, lo), fmt.Sprintf("MembersLen(node%d)=%d outside [%d,%d] (untouched present addresses .. plus all addresses the writer moves)", s.node, got, lo, hi), h)
+					if got := p.MembersLen(node(sn).addr); got < lo || got > hi {
+						viol(r, c, "concurrent:reader:MembersLen:out-of-bounds:"+dir(got, lo), fmt.Sprintf("MembersLen(node%d)=%d outside [%d,%d] (untouched present addresses .. plus all addresses the writer moves)", sn, got, lo, hi), h)
 					}
 					c["obs_Len"]++
 					if got := p.Len(); got < stablePresent || got > stablePresent+len(moving) {
@@ -634,7 +673,7 @@ func runConcurrent(r *vlib.Run, i int) {
 		var pres []string
 		for k, s := range slots {
 			if m.present[k] {
-				pres = append(pres, fmt.Sprintf("node%d/%s", s.node, s.id))
+				pres = append(pres, fmt.Sprintf("node%d/%s", m.cur[k], s.id))
 			}
 		}
 		sort.Strings(pres)
